@@ -117,10 +117,13 @@ struct Cfg<'a> {
     limit: Option<u64>,
     stack: Option<u64>,
     hooks: Hooks,
+    /// initial RIP = BASE + entry (0, or the length of the first item: an entry point inside the
+    /// code - the end of the code is where the code ends, wherever execution starts)
+    entry: u64,
 }
 
 fn build(c: &Cfg) -> Axecutor {
-    let mut ax = Axecutor::new(c.code, BASE, BASE).unwrap();
+    let mut ax = Axecutor::new(c.code, BASE, BASE + c.entry).unwrap();
     for k in 0..16 {
         ax.reg_write_64(crate::emu::GPR64[k], crate::emu::filler_gpr(k)).unwrap();
         ax.reg_write_128(crate::emu::XMM[k], crate::emu::filler_xmm(k)).unwrap();
@@ -360,6 +363,11 @@ fn gen(maxlen: usize) -> impl Fn(&mut EnumCtx) + Sync {
                     // 0x108: a length that is not a multiple of 16 (the initial RSP is aligned down)
                     for stack in [None, Some(0x100u64), Some(0x108)] {
                         for hooks in [Hooks::None, Hooks::StopBeforeSyscall, Hooks::StopAfterNop] {
+                          for entry in [0u64, item_len(prog[0]) as u64] {
+                            // entry inside the code: programs of two or more items, plain configuration
+                            if entry != 0 && (len < 2 || hooks != Hooks::None || !matches!(limit, None | Some(2))) {
+                                continue;
+                            }
                             // hook configurations only matter for programs with that mnemonic
                             if hooks == Hooks::StopBeforeSyscall && !prog.contains(&Item::Syscall) {
                                 continue;
@@ -370,7 +378,7 @@ fn gen(maxlen: usize) -> impl Fn(&mut EnumCtx) + Sync {
                             if !e.next() {
                                 continue;
                             }
-                            let ctx = format!("program {:?} limit {:?} stack {:?} hooks {:?}", prog, limit, stack, hooks);
+                            let ctx = format!("program {:?} limit {:?} stack {:?} hooks {:?} entry +{}", prog, limit, stack, hooks, entry);
                             e.describe("loop", &ctx);
                             let c = Cfg {
                                 prog: &prog,
@@ -378,6 +386,7 @@ fn gen(maxlen: usize) -> impl Fn(&mut EnumCtx) + Sync {
                                 limit,
                                 stack,
                                 hooks,
+                                entry,
                             };
                             let _ = c.prog;
                             let mut viol: Vec<(String, String)> = vec![];
@@ -418,9 +427,10 @@ fn gen(maxlen: usize) -> impl Fn(&mut EnumCtx) + Sync {
                             let mut seen = std::collections::BTreeSet::new();
                             for (k, w) in viol {
                                 if seen.insert(k.clone()) {
-                                    e.finding(&k, || w.clone(), || json!({"program": format!("{:?}", prog), "bytes": crate::common::hex(&code), "limit": limit, "stack": stack, "hooks": format!("{:?}", hooks)}));
+                                    e.finding(&k, || w.clone(), || json!({"program": format!("{:?}", prog), "bytes": crate::common::hex(&code), "limit": limit, "stack": stack, "hooks": format!("{:?}", hooks), "entry": entry}));
                                 }
                             }
+                          }
                         }
                     }
                 }
